@@ -78,6 +78,8 @@ type Check struct {
 	// captured stderr to a signature.
 	DeathSig func(stderr string, cs json.RawMessage) (sig, msg string)
 	MemLimit uint64 // address-space limit of a worker process (0: 6 GiB)
+	WallPerSeed time.Duration // watchdog per seed including shrinking (0: 10 min)
+	RecycleEvery int          // restart a worker process after this many seeds (0: never)
 	// RaceSeeds, when set, adds a second leg executed by a binary built with
 	// -race (VERIF_RACE_BIN): a data race report kills the worker (halt_on_error)
 	// and is classified by DeathSig.
@@ -86,6 +88,9 @@ type Check struct {
 }
 
 var registry = map[string]*Check{}
+
+// realStderr is fd 2 even after World III redirected os.Stderr (Badger's logger).
+var realStderr = os.NewFile(2, "/dev/stderr")
 
 func Register(c *Check) { registry[c.ID] = c }
 
@@ -252,7 +257,39 @@ func runWorker(c *Check, tier string, root uint64) {
 	}
 }
 
+// watchdog aborts the worker when one seed runs away (wall clock or memory):
+// that is harness/build trouble (exit 2 in the parent), never a violation.
+func watchdog(seed uint64, limit time.Duration) func() {
+	stop := make(chan struct{})
+	go func() {
+		t := time.NewTicker(500 * time.Millisecond)
+		defer t.Stop()
+		start := time.Now()
+		for {
+			select {
+			case <-stop:
+				return
+			case <-t.C:
+				var ms runtime.MemStats
+				runtime.ReadMemStats(&ms)
+				if time.Since(start) > limit || ms.HeapAlloc > 6<<30 {
+					buf := make([]byte, 1<<20)
+					n := runtime.Stack(buf, true)
+					fmt.Fprintf(realStderr, "WATCHDOG: seed %d exceeded its budget (wall %.0fs, heap %d MiB)\n%s\n", seed, time.Since(start).Seconds(), ms.HeapAlloc>>20, tail(string(buf[:n]), 400000))
+					os.Exit(3)
+				}
+			}
+		}
+	}()
+	return func() { close(stop) }
+}
+
 func runSeed(c *Check, tier string, root, seed uint64) workerResult {
+	wl := c.WallPerSeed
+	if wl == 0 {
+		wl = 10 * time.Minute
+	}
+	defer watchdog(seed, wl)()
 	cs := c.Gen(simrt.NewRand(seed), tier)
 	o := safeExec(c, cs, false)
 	res := workerResult{Seed: seed, Outcome: o, CaseLen: len(cs)}
@@ -435,6 +472,11 @@ func runParent(c *Check, tier string, root uint64) int {
 		nw = seeds
 	}
 	known := loadKnown()
+	if old, _ := filepath.Glob(filepath.Join(replayDir(), c.ID+"-*.json")); true {
+		for _, f := range old {
+			os.Remove(f)
+		}
+	}
 	type death struct {
 		seed   uint64
 		stderr string
@@ -464,6 +506,7 @@ func runParent(c *Check, tier string, root uint64) int {
 			go func() {
 				defer wg.Done()
 				var w *workerProc
+				served := 0
 				defer func() {
 					if w != nil {
 						w.stdin.Close()
@@ -510,7 +553,9 @@ func runParent(c *Check, tier string, root uint64) int {
 						harnessTrouble = fmt.Sprintf("seed %d: %s", r.Seed, r.Outcome.Harness)
 					}
 					mu.Unlock()
-					if r.Outcome.Poisoned {
+					served++
+					if r.Outcome.Poisoned || (c.RecycleEvery > 0 && served >= c.RecycleEvery) {
+						served = 0
 						w.stdin.Close()
 						w.cmd.Process.Kill()
 						w.cmd.Wait()
@@ -591,6 +636,10 @@ func runParent(c *Check, tier string, root uint64) int {
 	for _, d := range deaths {
 		if c.DeathSig == nil {
 			fmt.Fprintf(os.Stderr, "HARNESS-TROUBLE check=%s worker died on seed %d:\n%s\n", c.ID, d.seed, tail(d.stderr, 4000))
+			return 2
+		}
+		if strings.Contains(d.stderr, "WATCHDOG:") {
+			fmt.Fprintf(os.Stderr, "HARNESS-TROUBLE check=%s %s\n", c.ID, tail(d.stderr, 6000))
 			return 2
 		}
 		dcs := c.Gen(simrt.NewRand(d.seed), tier)
@@ -799,6 +848,13 @@ func Entry() int {
 		return 0
 	case "one": // run a single seed in-process, print the outcome (development aid)
 		seed, _ := strconv.ParseUint(os.Getenv("VERIF_ONE"), 10, 64)
+		wl := 10 * time.Minute
+		if s := os.Getenv("VERIF_WALL"); s != "" {
+			if n, err := strconv.Atoi(s); err == nil {
+				wl = time.Duration(n) * time.Second
+			}
+		}
+		defer watchdog(seed, wl)()
 		cs := c.Gen(simrt.NewRand(seed), tier)
 		o := safeExec(c, cs, true)
 		b, _ := json.MarshalIndent(o, "", " ")
